@@ -120,8 +120,65 @@ def check_tables(fx, R):
             break
     generic = [s_ for s_ in md['fresh'] if not any(c[2] and isinstance(c[1], (sp.Eq, sp.And)) for c in s_.cond)]
     if len(md['fresh']) != 1 and len(generic) != 1:
-        R.undecided('G1', 'SmartRotation3D::init', 'init() forks into %d paths and no single generic one' % len(md['fresh']))
-        return
+        # several general paths (a range reduction of the angles, a branch on their size): the path ordinary angles take is the reference; every other path is evaluated on angles that select it and must
+        # hand out the SAME rotation and derivative matrices as the reference formulas give for those angles (the rotation and its derivatives are functions of the angles, not of the path)
+        def takes(st_, w_):
+            for c_ in st_.cond:
+                if not isinstance(c_[1], sp.Basic):
+                    return None
+                v_ = c_[1].subs(w_)
+                if v_ not in (sp.true, sp.false):
+                    try:
+                        v_ = v_.func(sp.N(v_.lhs, 30), sp.N(v_.rhs, 30))
+                    except Exception:
+                        return None
+                if v_ not in (sp.true, sp.false):
+                    return None
+                if bool(v_) != c_[2]:
+                    return False
+            return True
+        w0 = {x: sp.Rational(1, 10), y: sp.Rational(1, 5), z: sp.Rational(3, 10)}
+        ref = [s_ for s_ in md['fresh'] if takes(s_, w0) is True]
+        if len(ref) != 1:
+            R.undecided('G1', 'SmartRotation3D::init', 'init() forks into %d paths and the angles (0.1, 0.2, 0.3) do not select exactly one' % len(md['fresh']))
+            return
+        cands = [{x: sp.Rational(1, 10), y: 2 * sp.pi - sp.Rational(3, 10), z: sp.Rational(3, 10)}, {x: sp.Rational(1, 10), y: sp.Rational(5, 2), z: sp.Rational(3, 10)},
+                 {x: sp.Rational(1, 10), y: -sp.Rational(2), z: sp.Rational(3, 10)}, {x: sp.Rational(7, 2), y: sp.Rational(1, 5), z: sp.Rational(3, 10)}, {x: sp.Rational(1, 10), y: sp.Rational(1, 5), z: sp.Rational(5)},
+                 {x: -sp.Rational(1, 10), y: -sp.Rational(1, 5), z: -sp.Rational(3, 10)}, {x: sp.Integer(0), y: sp.Integer(0), z: sp.Integer(0)}]
+        for s_ in md['fresh']:
+            if s_ is ref[0]:
+                continue
+            desc = ' && '.join(('' if c[2] else '!') + '(' + c[0] + ')' for c in s_.cond)
+            wsel = next((w_ for w_ in cands if takes(s_, w_) is True), None)
+            if wsel is None:
+                R.undecided('G1', 'SmartRotation3D::init:path[%s]' % desc[:80], 'no witness angles select this path of init()')
+                continue
+            worst = None
+            for (nm_, acc_) in (('R', 'R'),) + tuple((a_[1], a_[1]) for a_ in ACC):
+                va, _f = seen(s_, acc_)
+                vb, _f = seen(ref[0], acc_)
+                if not (isinstance(va, sp.MatrixBase) and isinstance(vb, sp.MatrixBase)):
+                    worst = worst or ('?', acc_)
+                    continue
+                try:
+                    da = (va.subs(wsel) - vb.subs(wsel)).applyfunc(lambda t_: abs(sp.N(t_, 30)))
+                    mx = max(da)
+                except Exception:
+                    worst = worst or ('?', acc_)
+                    continue
+                if mx > sp.Float('1e-9') and (worst is None or worst[0] == '?'):
+                    worst = (mx, acc_, sp.N(va.subs(wsel), 5).tolist(), sp.N(vb.subs(wsel), 5).tolist())
+            if worst and worst[0] != '?':
+                R.violated('G1', 'SmartRotation3D::init:path-consistency', 'on the path [%s] of init(), taken for the angles (%s), %s() hands out %s; the formulas of the path ordinary angles take give %s for the same angles '
+                           '(largest difference %s).  The rotation and its derivatives are functions of the angles: a path that re-expresses the angles (another representation of the same rotation) must apply the chain '
+                           'rule to the derivative tables - here the reported derivative is not the derivative of the reported rotation with respect to the angle the CALLER varies, and J C J^T of a transformed '
+                           'pose whose stored pitch falls in that range has wrong cross terms' % (desc[:160], ', '.join(str(sp.N(wsel[a_], 5)) for a_ in (x, y, z)), worst[1], str(worst[2])[:160], str(worst[3])[:160],
+                                                                                                  sp.N(worst[0], 4)), fx.rel(md['init']['loc']), 'E-ALG')
+            elif worst:
+                R.undecided('G1', 'SmartRotation3D::init:path[%s]' % desc[:80], '%s() not readable on this path' % worst[1])
+            else:
+                R.holds('G1', 'SmartRotation3D::init:path[%s]' % desc[:80], 'hands out the same rotation and derivative matrices as the reference path on angles that select it', fx.rel(md['init']['loc']), 'E-ALG')
+        generic = ref
     st = generic[0] if len(md['fresh']) != 1 else md['fresh'][0]
     F = lambda n: sp.Matrix(st.fields[('this', n)])
     for (tab, dtab, ang, ax) in (('Rx_', 'dRxdAngleX_', x, 'X'), ('Ry_', 'dRydAngleY_', y, 'Y'), ('Rz_', 'dRzdAngleZ_', z, 'Z')):
